@@ -73,6 +73,13 @@ func c02GenOp(t *rapid.T, first bool, ver int) *world.Op {
 	}
 	if op.Kind == "install" || op.Kind == "upgrade" {
 		op.Chart = world.ChartSpec{Version: ver, Resources: genResources(t, 4, c02Policies)}
+		// a template may name a namespace of its own; the same kind and name there is a different object (a resource
+		// that moves between namespaces from one revision to the next is stale in the old place)
+		for k := range op.Chart.Resources {
+			if rapid.IntRange(0, 6).Draw(t, "explicitNamespace") == 0 {
+				op.Chart.Resources[k].NS = "other"
+			}
+		}
 		if !op.DisableHooks {
 			op.Chart.Hooks = genSimpleHooks(t)
 		}
